@@ -219,6 +219,7 @@ def table() -> dict[str, Prop]:
     props["C14"].rules.append(SW.rule_fanout)          # reset_rules restores all four rulers with enableOnly
     props["C08"].rules.append(PL.rule_oneline)         # raw source slices never span lines
     props["C16"].rules.append(PL.rule_oneline)
+    props["C08"].rules.append(PL.rule_count)           # repetition-built markup has the scanned number of characters
     props["C12"].rules.append(EF.rule_eff_config)      # creating / configuring one instance writes nothing shared
     props["C13"].rules.append(EF.rule_alias)           # class-level mutables are shared between concurrent parses too
     return props
